@@ -65,10 +65,10 @@ def parseReq : List String → Req
   | _ => {}
 
 def parseProxy : List String → Proxy
-  | [ty, cfg, mns, ew, wa, sd, loc, ploc, tg, sc, psc, mg, pmg, net, ad] =>
+  | [ty, cfg, mns, ew, wa, sd, loc, ploc, tg, ptg, sc, psc, mg, pmg, net, ad] =>
     { ty := PType.ofTok ty, cfgNs := num cfg, metaNs := num mns, ewLabel := tokBool ew, watchAddr := tokBool wa,
       selfDisc := tokBool sd, localSvc := parsePair loc, prevLocalSvc := parsePair ploc,
-      targets := (lst tg ",").filterMap parsePair, scope := parseScope sc, prevScope := parseScope psc,
+      targets := (lst tg ",").filterMap parsePair, prevTargets := (lst ptg ",").filterMap parsePair, scope := parseScope sc, prevScope := parseScope psc,
       mg := parseMG mg, prevMg := parseMG pmg, network := num net, addrs := (lst ad ",").map num }
   | _ => {}
 
